@@ -19,7 +19,7 @@ def run(rep, tier, seed, replay):
                        "modelled not verified: bencode reader/writer of the info dictionary (C07), static_map handshake parser (fields are given "
                        "as integers), epoll event order (one batch = one read event, replies written afterwards), TCP delivery of a batch "
                        "in one segment, choke/keep-alive/have traffic (filtered out), encryption (plain connections), write blocking "
-                       "(no send budget: every write completes), Close of a connection that is out of the read set",
+                       "(send budget is all-or-nothing per connection: blocked / unlimited), Close of a connection that is out of the read set",
                        "not modelled at all: fetcher side (PeerConnectionMetadata::receive_metadata_piece / try_request_metadata_pieces, magnet)",
                        "pad bytes of the info dictionary are a fixed arithmetic function of the offset, implemented three times (C++, OCaml, python)",
                        "python property oracle gen/c20.py:oracle evaluated on the implementation's output"]))
@@ -33,6 +33,7 @@ def run(rep, tier, seed, replay):
     mo = ltv.run_sharded(model, cases)
     io = ltv.run_sharded(impl, cases, timeout=900)
     nontrivial, mism, samples = set(), 0, []
+    unmodelled = 0
     nmeta = npex = ntoggle = nclosed = 0
     classes = {}
     for i, case in enumerate(cases):
@@ -49,6 +50,11 @@ def run(rep, tier, seed, replay):
         viol = G.oracle(case, o)
         for kl, _ in viol:
             classes[kl] = classes.get(kl, 0) + 1
+        if m.endswith("UNMODELLED"):
+            unmodelled += 1      # outside the model's stated domain (a read that would split a message, ...): oracle only
+            for kl, text in viol:
+                rep.violation(text, case=case, model=m, impl=o, theorem="property oracle C20", klass=kl)
+            continue
         if m != o:
             mism += 1
             if viol:
@@ -68,13 +74,13 @@ def run(rep, tier, seed, replay):
             theorem="coq/C20/Properties.v", found_input=False)
     stats = dict(stats)
     stats.update(metadata_replies_seen=nmeta, pex_messages_seen=npex, pex_toggles_seen=ntoggle,
-                 connections_closed_by_library=nclosed, oracle_classes=classes)
+                 connections_closed_by_library=nclosed, oracle_classes=classes, unmodelled_cases=unmodelled)
     rep.cov.update(evaluations=len(cases), distinct_nontrivial=len(nontrivial),
                    rule="cases = corpus + hand list + full piece sweep at every info size 16384k+{-1,0,1} (k<=3 quick, <=5 thorough) x private/public "
-                        "+ random provider sweeps / request bursts / id-map handshakes / multi-peer PEX histories / malformed streams "
+                        "+ random provider sweeps / request bursts / id-map handshakes / multi-peer PEX histories / blocked-write (send budget) histories / malformed streams "
                         "(+ every op list of length 3 over an 8-op alphabet in thorough); "
                         "non-trivial = distinct case in which the implementation sent at least one ut_metadata or ut_pex message",
                    samples=samples, input_distribution=stats, mismatches=mism, exhaustive=(tier == "thorough"))
-    rep.assumptions += ["plain (unencrypted) connections", "writes never block (no send budget)",
+    rep.assumptions += ["plain (unencrypted) connections", "a blocked write accepts no byte at all (no partial writes inside a message)",
                         "integers in peer messages fit int64", "each scripted peer index connects at most once per case",
                         "provider side only; the fetcher (magnet) side is not covered"]
